@@ -71,7 +71,9 @@ OTHER_OVERRIDE = {}
 
 def _oth(name):
     """attached circuit instance for a call (a monitor may pin the instance to inspect it afterwards)"""
-    return OTHER_OVERRIDE.get(name) or other(name)
+    from vmc import space
+
+    return OTHER_OVERRIDE.get(name) or space.variant(other(name))
 
 
 def other_net(name):
@@ -125,6 +127,14 @@ def start(name):
         c.set_outputs(['g3', 'g0'])
         c.make_block('K', ['g0', 'g2'], ['g2'])
         return c
+    if name == 'S7':  # repeated operands in wide and asymmetric gates
+        c.add_inputs(['x0', 'x1'])
+        c.emplace_gate('g0', G.AND, ('x0', 'x1', 'x0'))
+        c.emplace_gate('g1', G.LT, ('g0', 'g0'))
+        c.emplace_gate('g2', G.OR, ('x1', 'x1', 'g1'))
+        c.emplace_gate('g3', G.LIFF, ('x1', 'x1'))
+        c.set_outputs(['g2', 'g3'])
+        return c
     raise KeyError(name)
 
 
@@ -137,7 +147,12 @@ def apply_op(c, op):
     """Apply one JSON-able op to the real circuit; returns the (possibly new) circuit."""
     from cirbo.core.circuit import Gate, gate as G
 
+    from vmc import space
+
     k = op[0]
+    if space.VARIANT[0] == 'fresh-labels':
+        # every label is passed as a string object of its own (equal to, never identical with, the stored one)
+        op = [op[0]] + [x if (k in ('emplace_gate', 'add_gate') and i == 1) else _fresh_op(x) for i, x in enumerate(op[1:])]
     if k == 'emplace_gate':
         c.emplace_gate(op[1], getattr(G, op[2]), tuple(op[3]))
     elif k == 'add_gate':
@@ -206,11 +221,23 @@ def apply_op(c, op):
     return c
 
 
+def _fresh_op(op):
+    from vmc import space
+
+    if isinstance(op, str):
+        return space.fresh_str(op)
+    if isinstance(op, list):
+        return [_fresh_op(x) for x in op]
+    if isinstance(op, dict):
+        return {k: _fresh_op(v) for k, v in op.items()}
+    return op
+
+
 def replay(start_name, hist):
-    from vmc import boot
+    from vmc import boot, space
 
     boot.uuid_counter.reset()  # fresh-label source restarts with every replay (determinism)
-    c = start(start_name)
+    c = space.variant(start(start_name))
     for op in hist:
         c = apply_op(c, op)
     return c
